@@ -297,12 +297,14 @@ class ScribbleExec(O.Exec):
     def op_scribble_ret(self, op):
         """Read, then (the misbehaving client only) scribble on what came back."""
         got = self.raw(op["src"])
+        other = self.raw(op["src"])  # a second result of the same read, held as well
         before = self.norm(got)
         result = None
         if self.misbehave:
             result = scribble(got, op["mut"], self.junk(op["mut"]))
             self.last_scribble = result
-        return {"read": before}
+        # scribbling on one result must not reach into another one
+        return {"read": before, "other-result-after": self.norm(other)}
 
 
 def xsnap(ex):
@@ -382,6 +384,8 @@ class C12(c05.C05):
         cfg["weights"]["mk_vertex_c"] = rng.choice([1, 2])
         cfg["weights"]["mk_universe_c"] = rng.choice([1, 2])
         cfg["weights"]["mk_laws_c"] = rng.choice([1, 2])
+        if rng.random() < 0.15:
+            cfg["universe_classes"] = ["Universe", "UnhashableUniverse"]
         cfg["multi"] = rng.random() < 0.25
         cfg["nmv"] = rng.randint(2, 3)
         if cfg["multi"]:
@@ -602,9 +606,14 @@ class C12(c05.C05):
             s["probe:immutable-refused"] += 1
             s["fault:scribble-refused"] += 1
         if a != b:
-            return out, engine.viol(
-                f"C12/outcome-differs:{k}", {"op": op, "scribbled_world": a, "clean_world": b}
-            )
+            kind = f"C12/outcome-differs:{k}"
+            if (
+                k == "scribble_ret"
+                and "ret" in a and "ret" in b
+                and a["ret"].get("read") == b["ret"].get("read")
+            ):
+                kind = "C12/two-results-of-one-read-share-an-object:" + op["src"]["op"]
+            return out, engine.viol(kind, {"op": op, "scribbled_world": a, "clean_world": b})
         if k != "scribble_ret":
             st.mutations += 1
             st.mut_since_read = True
